@@ -316,3 +316,21 @@ func verifH_C08_object_header() {
 	verifAssert((err == nil) == want, "C08 object header: the header text is read in the declared form (explode defaults to false for headers) and the object validated")
 	verifReach("end")
 }
+
+//verif:harness id=C08 tier=quick,thorough witness=end bounds="response headers whose schema has no type: schema in {{}, enum [a,b], minLength 1, pattern ^a$} x header value a / zz: the response passes exactly when the text, read as the string it is, satisfies the schema"
+func verifH_C08_untyped_header() {
+	schema, sat := verifUntypedSchema(verifChoose("schema", 4))
+	vi := verifChoose("value", 2)
+	text := []string{"a", "zz"}[vi]
+	d := "d"
+	resp := &openapi3.Response{Description: &d, Headers: openapi3.Headers{"X-H": &openapi3.HeaderRef{Value: &openapi3.Header{Parameter: openapi3.Parameter{Schema: &openapi3.SchemaRef{Value: schema}}}}}}
+	resps := openapi3.NewResponsesWithCapacity(1)
+	resps.Set("200", &openapi3.ResponseRef{Value: resp})
+	op := &openapi3.Operation{Responses: resps}
+	in := verifRespInput(op, "GET", 200, http.Header{"X-H": []string{text}}, nil, &Options{})
+	err := ValidateResponse(context.Background(), in)
+	verifKnown("C08-untyped-header-schema-present-value-rejected", sat[vi])
+	verifAssert((err == nil) == sat[vi], "C08 untyped header: a present header value is accepted exactly when it satisfies the type-less schema")
+	verifKnown("C08-untyped-header-schema-present-value-rejected", false)
+	verifReach("end")
+}
